@@ -27,6 +27,7 @@ func runC18(c *Ctx) {
 	c.Rule("L1 alpha-result-used: results derived from lossy.EncodeAlpha are used (returned, passed on or written) at every reachable call site of the functions that return them")
 	c.Rule("L2 alpha-argument: along the parameter chain that ends in lossy.DecodeAlpha, every call site passes a value derived from an AlphaData field (followed through struct copies and parameters) or the caller's own alpha parameter")
 	c.Rule("L4 blend-identity for the lossy predicate: over (target alpha, previous alpha) in {0,mid,255}^2 x {equal,different}, a class isLossyBlendingPossible may accept keeps its alpha class through keepCanvasWhereNotOpaque + alphaBlendNRGBA")
+	c.Rule("L5 alpha-exact options: every EncoderOptions literal built by a function wired into the animation package as an encoder sets AlphaQuality to 100 or to the negative default sentinel (Go's zero value means two alpha levels)")
 	c.NotCovered("the alpha scan that decides whether a frame has transparency (value-level loop over pixels); exactness of the alpha codec; codec choice by size in mixed mode")
 	for _, cf := range c.configsFor() {
 		p := c.load(cf[0], cf[1])
@@ -36,6 +37,7 @@ func runC18(c *Ctx) {
 		c18ResultUsed(c, p)
 		c18AlphaArgs(c, p)
 		c18Blend(c, p)
+		c18ExactOptions(c, p)
 	}
 }
 
@@ -415,4 +417,72 @@ func c18Blend(c *Ctx, p *Program) {
 		}
 	}
 	c.Floor("L4-blend-alpha", n, 10)
+}
+
+// L5 alpha-exact options: the functions wired into the animation package as frame encoders build
+// their own EncoderOptions. Alpha must be coded exactly there (the property allows no alpha loss in
+// any mode): every EncoderOptions literal built in a function stored into animation.FrameEncoderFunc
+// or animation.SimpleEncodeFunc (or in what they call in the root package) sets AlphaQuality to a
+// negative sentinel (default 100) or to 100, and AlphaCompression/AlphaFiltering to valid values or
+// sentinels; a field left at Go's zero value means "quantise alpha to 2 levels".
+func c18ExactOptions(c *Ctx, p *Program) {
+	root := p.SSAPkg("")
+	if root == nil {
+		c.AnchorMissing("L5-alpha-exact-options", "root package")
+		return
+	}
+	var wired []*ssa.Function
+	for _, f := range wiredFuncs(p) {
+		if f.Pkg == root && f.Signature.Params().Len() > 0 && strings.Contains(strings.ToLower(f.Name()), "encode") {
+			wired = append(wired, f)
+		}
+	}
+	if len(wired) == 0 {
+		c.AnchorMissing("L5-alpha-exact-options", "encoder functions stored into animation hooks")
+		return
+	}
+	n := 0
+	for _, fn := range wired {
+		for _, b := range fn.Blocks {
+			for _, in := range b.Instrs {
+				al, ok := in.(*ssa.Alloc)
+				if !ok || namedOf(al.Type()) != "EncoderOptions" {
+					continue
+				}
+				n++
+				// constant stores to the fields of this literal
+				vals := map[string]int64{}
+				set := map[string]bool{}
+				for _, u := range *al.Referrers() {
+					fa, ok := u.(*ssa.FieldAddr)
+					if !ok {
+						continue
+					}
+					name := fieldName(fa.X.Type(), fa.Field)
+					for _, u2 := range *fa.Referrers() {
+						if st, ok := u2.(*ssa.Store); ok && st.Addr == ssa.Value(fa) {
+							set[name] = true
+							if k, ok := st.Val.(*ssa.Const); ok {
+								if kv, ok := constantInt(k); ok {
+									vals[name] = kv
+								}
+							}
+						}
+					}
+				}
+				var problems []string
+				q, has := vals["AlphaQuality"]
+				switch {
+				case !set["AlphaQuality"]:
+					problems = append(problems, "AlphaQuality is left at 0 (alpha quantised to 2 levels)")
+				case has && q >= 0 && q != 100:
+					problems = append(problems, fmt.Sprintf("AlphaQuality is %d (alpha is quantised below 100)", q))
+				}
+				c.Func(FnName(fn))
+				c.Check(len(problems) == 0, "L5-alpha-exact-options", fn.Name()+":EncoderOptions", p.Pos(al.Pos()), "the frame encoder asks for exact alpha (AlphaQuality 100 or the default sentinel)",
+					fn.Name()+" builds the options for animation frames with "+strings.Join(problems, "; ")+": the alpha channel of such frames is not the source alpha")
+			}
+		}
+	}
+	c.Floor("L5-alpha-exact-options", n, 2)
 }
